@@ -33,7 +33,7 @@ CHECKS = {
    ref="4/C15"),
  "C03": dict(
    technique="static analysis: Move layout derived from getter/setter MIR, bit-level may-analysis with integer widths, make/unmake write-set and flag-mirror comparison, all-paths balance of probes",
-   text="Decides, for every clock value and move at once, structural necessary conditions of make/unmake being inverse: every undo field's setter can reach all bits of the field (abstract interpretation of the written expression), make and unmake write the same board fields, each castling-right flag is cleared/restored under the same predicate for the same player, castling is undone with swapped squares, saved = restored fields, probes are balanced on all paths. Does not decide bitboard equality after make+unmake for every move kind.",
+   text="Decides, for every clock value and move at once, structural necessary conditions of make/unmake being inverse: every undo field's setter can reach all bits of the field (abstract interpretation of the written expression), make and unmake write the same board fields, each castling-right flag is cleared/restored under the same predicate for the same player, castling is undone with swapped squares, saved = restored fields, probes are balanced on all paths; the castling-right bookkeeping is compared as a full truth table (16 predicate assignments) and - R6 - the placement change of unmake is the exact symbolic inverse of make's for every move kind (normal, promotion, e.p. both colours, four castlings), computed from all paths of both functions. Together these decide 'make followed by unmake restores placement, rights, e.p. square and clocks' at the level of the expressions the code writes; what remains undecided is that the Move fields hold what generation intended (C02).",
    note="Trusted: rustc MIR, the extractor, the path evaluator and bit-mask transfer functions (about 150 lines).",
    ref="4/C03"),
  "C10": dict(
@@ -65,12 +65,12 @@ CHECKS = {
    ref="4/C11"),
  "C02": dict(
    technique="static analysis: Move layout derived from getter/setter MIR, bit-level may-analysis, reader-set comparison, exhaustive path enumeration of the move constructor with a board-geometry oracle for the castling-right squares",
-   text="Decides structural necessary conditions of 'make produces the successor' for every position and move: field layout well-formed and disjoint, setters reach their fields, every recorded effect has its reader in make/unmake/zobrist_xor, make applies clock/e.p./move number/side correctly, the clock-reset flag is set exactly for pawn moves and captures (all 10^3 paths of make_move enumerated), and each castling-right-lost flag is set exactly for the rook/king home squares of the right colour (geometry oracle, both colours). Does not decide successor equality.",
+   text="Decides structural necessary conditions of 'make produces the successor' for every position and move: field layout well-formed and disjoint, setters reach their fields, every recorded effect has its reader in make/unmake/zobrist_xor, make applies clock/e.p./move number/side correctly, the clock-reset flag is set exactly for pawn moves and captures (all 10^3 paths of make_move enumerated), and each castling-right-lost flag is set exactly for the rook/king home squares of the right colour (geometry oracle, both colours), never skipped on a path that emits the move; R6: for every move kind the placement change make performs (all 256 paths) is exactly the one the rules define (geometry oracle for castling rook squares and the e.p. victim square). Does not decide that the generator fills the move fields with the right pieces/squares for every position (that is C01's domain).",
    note="Trusted: rustc MIR, the extractor, path evaluator, geometry oracle; the reader table (Appendix A.1) is keyed by getter names.",
    ref="4/C02"),
  "C06": dict(
    technique="static analysis: compiler-evaluated Zobrist key material (distinctness, zero rows), folded castle_hash, call-graph field read sets, operand-level agreement of make / zobrist_xor / search",
-   text="Decides: all 781 keys non-zero and pairwise distinct with the two no-piece rows zero (exactly the condition for 'any single component change changes the hash', given the read set); the from-scratch hashes read placement/side/rights/e.p. and never the clocks; all 12 piece-colour combinations hashed with matching constants; e.p. key by file; make and zobrist_xor agree on castling squares, e.p. victim square and which move fields they read; the search threads hash ^ delta of the move it made. Does not decide incremental == recomputed for every move.",
+   text="Decides: all 781 keys non-zero and pairwise distinct with the two no-piece rows zero (exactly the condition for 'any single component change changes the hash', given the read set); the from-scratch hashes read placement/side/rights/e.p. and never the clocks; all 12 piece-colour combinations hashed with matching constants; e.p. key by file; make and zobrist_xor agree on castling squares, e.p. victim square and which move fields they read; the search threads hash ^ delta of the move it made; R5: for every path of zobrist_xor (768) the full delta toggles exactly one piece-square key per placement change of make for that move kind (same player, piece, square), the side key, the old/new e.p. keys and exactly the rights keys make clears, and the pawn delta is its pawn/side/e.p. part - i.e. incremental == recomputed is decided symbolically given the from-scratch hash's structure (R2).",
    note="Trusted: rustc const evaluation + MIR, the extractor.",
    ref="4/C06"),
  "C05": dict(
